@@ -47,6 +47,7 @@ def check(ctx):
     # mechanisms this property rests on (see shared.py): a change there is reported here as well
     from . import shared as _sh
 
+    _sh.path_tokenisers(ctx)
     _sh.graph_loader(ctx)
     _sh.cli_layer(ctx, "gaftools.cli.find_path")
 
@@ -257,9 +258,7 @@ def r14_2_3(ctx, g):
     ok_dom = len(chk) == 1 and ep.node.body.index(chk[0]) < ep.node.body.index(loop) and canon_test(chk[0].test, True)[1] is False and isinstance(chk[0].body[-1], ast.Return) and const_value(chk[0].body[-1].value, "?") == ""
     ctx.check(ok_dom, "R14.3", ep.where(), "the walk check dominates the concatenation: a path that is not a walk returns the empty sequence before anything is spelled", key_of(ep, "walk-check-dominates"))
     # tokenisation
-    tok = [st for st in ep.node.body if isinstance(st, ast.Assign) and isinstance(st.value, ast.Call) and norm(st.value.func) == "re.findall"]
-    ok_tok = len(tok) == 1 and const_value(tok[0].value.args[0]) == "[><][^><]+"
-    ctx.check(ok_tok, "R14.3", ep.where(), "the path is tokenised into orientation sign + node id steps", key_of(ep, "tokenise"))
+    # tokenisation: R14.5 (shared.path_tokenisers) decides it on the parsed regular expression
 
 
 def r14_4(ctx):
@@ -301,6 +300,12 @@ def r14_4(ctx):
             plain = isinstance(src, ast.Name) and norm(st.value.elt.args[0]) == norm(g_.target) and not g_.ifs
             if plain:
                 ctx.holds("R14.4", run.where(st), f"one sequence per path: the sequences are computed over the path list `{src.id}` itself, element by element")
+                # where the path list comes from: every line of the file, also a last line without a newline
+                for d in [x.value for x in walk_own(run.node) if isinstance(x, ast.Assign) and norm(x.targets[0]) == src.id and isinstance(x.value, ast.ListComp) and len(x.value.generators) == 1]:
+                    lines = d.generators[0].iter
+                    t = norm(lines)
+                    if isinstance(lines, ast.Subscript) and isinstance(lines.slice, ast.Slice) and norm(lines.slice) in (":-1", "0:-1") and ".read().split(" in t:
+                        ctx.violated("R14.4", run.where(st), f"the paths are taken from `{t}`: the last piece is dropped on the assumption that the file ends with a newline, so the last path of a file without a final newline is lost", key_of(run, f"lines-drop-last:{t[:50]}"))
             elif isinstance(src, ast.Call) and any(isinstance(a, ast.Name) for a in src.args) and norm(src.func) in ("dict.fromkeys", "set", "sorted", "frozenset", "reversed", "list", "tuple") and norm(src.func) not in ("list", "tuple"):
                 ctx.violated("R14.4", run.where(st), f"the sequences are computed over `{norm(src)}`, not over the path list itself: repeated (or reordered) paths make the list of sequences shorter / differently ordered than the list of paths they are paired with", key_of(run, f"seqs-over-copy:{norm(src)[:50]}"))
             elif g_.ifs:
